@@ -187,6 +187,19 @@ def check_cirq(case, acc):
         if dd > TOL:
             bad("simulate", "statevector", {"init": label, "distance": dd, "advertised_order": order})
         acc.out(tuple(sorted(f_ref)))
+        if label in ("dense", "basis1"):
+            # the same argument objects again: arguments unchanged, same answer (the initial vector and the circuit belong to the caller)
+            acc.ev()
+            snap = None if init_be is None else np.array(init_be, copy=True)
+            try:
+                freqs2, sv2 = be.simulate(c, return_statevector=True, initial_statevector=init_be)
+                same = freq_diff(freqs2, f_ref) <= TOL and SV.dist_up_to_phase(SV.from_order(np.asarray(sv2), n, order), psi_ref) <= TOL
+            except Exception as e:
+                same = False
+            if snap is not None and not np.array_equal(snap, init_be):
+                bad("simulate", "initial_statevector-argument-modified", {"init": label})
+            elif not same:
+                bad("simulate", "second-call-with-the-same-arguments-differs", {"init": label})
         # return_statevector=False must give the same frequencies and no vector
         if label == "zero":
             f2, sv2 = be.simulate(c)
